@@ -178,6 +178,15 @@ class VTask(Task):
             name = stage.context.get("_signal_name")
             rec["signal"] = jcopy(data) if data is not None else None
             rec["signal_name"] = name
+            if int(beh.get("waits", 1)) > 1:
+                # a gate that needs several signals: execution k of this task (0 = the first, unsignalled one) has
+                # been resumed k times; it waits again until `waits` resumes happened
+                k = rec["n"]
+                rec["counter"] = k
+                if k < int(beh["waits"]):
+                    return TaskResult.suspend()
+                outputs, ctx = self._outs(ref, beh, rec)
+                return TaskResult.success(outputs=outputs, context=ctx)
             if name:
                 outputs, ctx = self._outs(ref, beh, rec)
                 outputs["sig_seen"] = jcopy(data)
